@@ -167,6 +167,11 @@ def run_case(c, stats):
     stats.cls("pda:" + c["p"]["vc"])
     with core.oracle_mode():
         ref = extract.pda(p)
+        want = gpda.ref_of_case(c["p"])
+        core.LOG.count("C13.construction")
+        if ref.key() != want.key():
+            core.report(PROP, "construct", "pda-differs-from-what-was-added",
+                        {"got": repr(ref.key())[:200], "want": repr(want.key())[:200]}, ["form:" + str(c["p"].get("form"))])
         nt = any(ref.accepts_empty_stack(w) or ref.accepts_final(w) for w in words(ref.alpha))
     call(p.to_cfg)
     ok, f = call(p.to_final_state)
